@@ -35,7 +35,7 @@ theorem cur_mem (l : List Ver) : cur l = 0 ∨ cur l ∈ l := by
 /-- position inside `m_data`'s operations a cow pc corresponds to -/
 def Pc.cls : Pc → LK
   | .rdA _ | .lkA => .pre
-  | .rdH _ _ | .lkH _ | .lkC _ | .lkT => .hold
+  | .rdH _ _ | .rdP _ _ | .lkH _ | .lkC _ | .lkT => .hold
   | .relA v => .wA v
   | .relB v _ => .wB v
   | .relC v => .wR v
